@@ -39,7 +39,8 @@ func tiered(quick, thorough int) func(string) int {
 func Spec() *run.Spec {
 	return &run.Spec{
 		ID: "C20", Level: "exploration",
-		Rule: "sets: one case = one generated point set (class and extent decade cycle with the case index: uniform, clustered, jittered grid, jittered circles with centre, " +
+		Rule: "Since round 7 the sequences phase interleaves calls on degenerate inputs (fewer than 3 points, collinear, all equal, duplicates, NaN / infinite coordinates, exactly co-circular, exact grids, coordinates near the ends of the float range; never judged) with the judged calls (plan letter D). " +
+			"sets: one case = one generated point set (class and extent decade cycle with the case index: uniform, clustered, jittered grid, jittered circles with centre, " +
 			"near-collinear hull, mixed, two-scale, gaussian; 3-120 points; larger side 1e-3..1e6; aspect ratio 1..1000 in either axis; offset 0..1e6; optional rotation), triangulated twice: as generated and with the " +
 			"points permuted. orders: one case = one set of 4-6 points triangulated in every insertion order (24/120/720). A set is used only if every triple/quadruple is further than 1e-13 (relative to the determinant's permanent) " +
 			"from collinear/co-circular (general position at float resolution; otherwise redrawn with a larger jitter). Non-trivial = at least 4 points, both outputs non-empty and at least one " +
